@@ -272,6 +272,9 @@ def run(rep, tier):
         c11_entry.check(facts, rep, fam, only='GetOnDemand')
         ownership(facts, rep)
         merge_skeleton(facts, rep)
+        # each lazily parsed slice is scanned by a fresh Parser: the scanner's white-space cache is per buffer (shared with C02 clause f)
+        from . import c02
+        c02.clause_f(facts, rep)
     rep.min_instances('E3.decode-buffer', 4)
     rep.trust('clang 14 front end', 'zone analysis and callee summaries of C11', 'contract of parseStringInplace: scans to the first unescaped quote with VEC_LEN-byte block loads')
     rep.assumptions += [
